@@ -101,7 +101,11 @@ def run_prims(ctx):
                               {'hex': data.hex()[:200]})
             if codec.encode(y, v) != data:
                 ctx.violation('%s|reencode' % name, 're-encoding differs', {'hex': data.hex()[:200]})
-    ctx.sample({'primitive_grid': 'see kv/gen/codec_cases.py:prim_values', 'values': len(CC.prim_values())})
+    for name, typ, mk, pyv in CC.prim_values()[::37]:
+        try:
+            ctx.sample({'primitive': name, 'value': short(pyv), 'hex': codec.encode(mk(), KV[2]).hex()[:96]})
+        except Exception as e:
+            ctx.sample({'primitive': name, 'value': short(pyv), 'write_raises': type(e).__name__})
 
 
 def value_class(v):
